@@ -63,6 +63,20 @@ let handle (toks : string list) : string =
         List.map (fun c -> match c with 'J' -> POutput OJson | 'R' -> POutput OResp | _ -> POther)
           (List.init (String.length p) (String.get p))) (String.split_on_char '|' packets) in
       String.concat "" (List.map (fun m -> match m with OJson -> "j" | OResp -> "r") (serve d (om parsed.[0]) None ps))
+  (* mvt <tile> <json reply> : the "mvt" member writeFoot writes and what the HTTP .mvt route answers,
+     with the encodings the source names at the two sites (coq/Gen/Templates.v) *)
+  | ["mvt"; tile; res] ->
+      let t = bytes_of_hex tile in
+      let m = mvt_member mvt_json_encoding t in
+      (match m, mvt_http mvt_http_decoding (bytes_of_hex res) m with
+       | Some mem, Some r ->
+           Printf.sprintf "%s %d %s %s" (hex_of_bytes mem) (int_of_n r.h_status)
+             (match r.h_ctype with CTJson -> "json" | CTMvt -> "mvt") (hex_of_bytes r.h_body)
+       | _, _ -> "none")
+  | ["b64"; kind; dir; s] ->
+      let k = if kind = "std" then BStd else BRawStd in
+      if dir = "enc" then hex_of_bytes (encode k (bytes_of_hex s))
+      else (match decode k (bytes_of_hex s) with Some b -> "ok " ^ hex_of_bytes b | None -> "err")
   | ["sub_msg"; p] -> hex_of_bytes (sub_msg (bytes_of_hex p))
   | ["ws_header"; n] -> hex_of_bytes (ws_header (n_of_int (int_of_string n)))
   | ["ws_decode"; f] ->
